@@ -12,7 +12,15 @@
 (*   by full ID, by (region, local ID), children, parent link, orphans.     *)
 (* SceneGraph_MC.tla transcribes the code's algorithm (Algo layer) and TLC  *)
 (* checks it against these derived views; the real code is bound to the     *)
-(* operator Obs below (B1 edge replay, B2 recorded traces).                 *)
+(* operator SObs below and to the step outputs `out` (B1 edge replay by     *)
+(* SceneGraph_MBT, B2 recorded traces by SceneGraph_Trace).                 *)
+(*                                                                         *)
+(* Choices the property leaves open, taken as the code documents them:      *)
+(*  - a cascading kill spares avatars (they stay, orphaned);                *)
+(*  - an object announced for a handle the session has no region for stays  *)
+(*    in the session-wide index only ("regionless"), a NEW object announced *)
+(*    for such a handle is ignored;                                         *)
+(*  - an update resolves the pending request of its own type only.          *)
 (*                                                                         *)
 (* Environment assumptions of the property are GUARDS (UniqueSlots,         *)
 (* NoCycle): the simulator never gives one local ID to two live objects of  *)
